@@ -172,6 +172,24 @@ def respond (t : JoinTable) (op : String) (args : List Bytes) : String :=
   | "cli.compare", ue :: us :: un :: we :: ws :: wn :: arg :: files =>
     let r := Cli.compareCmd (tableEngine t) ⟨ue, us, un, we, ws, wn⟩ Parser.sortedOrd Parser.sortedOrd (decodeTree files) arg
     "ok " ++ (if r.ok then "01" else "00") ++ " " ++ toHexArg (joinCh ',' r.unchanged) ++ " " ++ toHexArg (joinCh ',' r.changed)
+  | "cli.run", out :: cmd :: flags :: ver :: verOk :: year :: lintPaths :: ue :: us :: un :: we :: ws :: wn :: pos :: files =>
+    -- out / ver: empty = not given, otherwise '=' followed by the value; pos: the positional arguments, each preceded by U+001F
+    let optOf (b : Bytes) : Option Bytes := match b with | '=' :: v => some v | _ => none
+    let command : Option Cli.Command :=
+      if cmd == b!"generate" then some .generate else if cmd == b!"update" then some .update
+      else if cmd == b!"compare" then some .compare else if cmd == b!"format" then some .format
+      else if cmd == b!"renumber" then some .renumber else if cmd == b!"copyright" then some .copyright else none
+    (match command with
+     | none => "bad-op"
+     | some c =>
+       let lp := splitCh '\n' lintPaths
+       let args := (splitCh (Char.ofNat 31) pos).drop 1
+       let inv : Cli.Invocation := { output := optOf out, cmd := c, args := args, all := flags.contains 'a', check := flags.contains 'c',
+                                     version := optOf ver, year := year }
+       match Cli.run (tableEngine t) ⟨ue, us, un, we, ws, wn⟩ Parser.sortedOrd Parser.sortedOrd (fun p => lp.contains p) (verOk == ['1']) inv (decodeTree files) with
+       | none => "ok " ++ toHexArg b!"unmodelled"
+       | some r => "ok " ++ (if r.ok then "01" else "00") ++ " " ++ toHexArg r.stdout ++
+           String.join (r.tree.map fun (p, c) => " " ++ toHexArg p ++ " " ++ toHexArg c))
   | "cli.updateAll", ue :: us :: un :: we :: ws :: wn :: files =>
     let tr := decodeTree files
     treeResp (Cli.updateAll (tableEngine t) ⟨ue, us, un, we, ws, wn⟩ Parser.sortedOrd Parser.sortedOrd {} tr tr)
